@@ -34,6 +34,35 @@ def stdlib_files(ctx, v):
     return out
 
 
+EXTRA_DIRS = ["/opt/veriftools/pyvenv/lib/python3.11/site-packages", "/venv/lib/python3.12/site-packages",
+              "/root/.pyenv/versions/3.13.0/lib/python3.13", "/root/.pyenv/versions/3.11.7/lib/python3.11/site-packages"]
+_extra_cache = []
+
+
+def extra_files(ctx):
+    """Third-party and newer-stdlib sources present in the image: more real-world programs for the 3.7-3.10 compilers
+    (files using newer syntax simply do not compile there and are skipped and counted)."""
+    if _extra_cache:
+        return _extra_cache[0]
+    out = []
+    for root in EXTRA_DIRS:
+        if not os.path.isdir(root):
+            continue
+        for d, dirs, files in os.walk(root):
+            dirs.sort()
+            for f in sorted(files):
+                if f.endswith(".py"):
+                    p = os.path.join(d, f)
+                    try:
+                        sz = os.path.getsize(p)
+                    except OSError:
+                        continue
+                    if 0 < sz <= 400000:
+                        out.append((p, sz))
+    _extra_cache.append(out)
+    return out
+
+
 def pyver(v):
     a, b = v.split(".")
     return (int(a), int(b))
@@ -52,7 +81,7 @@ def w9_cases(ctx, n, n_src=None):
 
 
 def corpus_cases(ctx, v, n_files=0, all_files=False, n_w3=0, w4=True, w1=True, modes=0, w3_size=1.0,
-                 max_file_bytes=None, w4_filter=None, w1_max_bytes=None, max_w4_bytes=None):
+                 max_file_bytes=None, w4_filter=None, w1_max_bytes=None, max_w4_bytes=None, n_extra=0, all_extra=False):
     """List of case descriptors for interpreter v (deterministic in ctx.seed)."""
     cases = []
     if w1:
@@ -70,6 +99,13 @@ def corpus_cases(ctx, v, n_files=0, all_files=False, n_w3=0, w4=True, w1=True, m
         chosen = r.sample(files, min(n_files, len(files)))
     for p, _sz in chosen:
         cases.append({"k": "file", "path": p, "id": "w2:" + os.path.relpath(p, ctx.stdlib_dir(v))})
+    if n_extra or all_extra:
+        ex = extra_files(ctx)
+        if max_file_bytes:
+            ex = [f for f in ex if f[1] <= max_file_bytes]
+        rx = rng(ctx.seed, "extra", v)
+        for p, _sz in (ex if all_extra else rx.sample(ex, min(n_extra, len(ex)))):
+            cases.append({"k": "file", "path": p, "id": "extra:" + "/".join(p.split("/")[-3:])})
     if modes:
         pool = r.sample(files, min(modes, len(files)))
         for p, _sz in pool:
